@@ -16,8 +16,12 @@ import sys
 import threading
 from typing import Any, Callable
 
-import networkx
-import y0
+import simlock
+
+simlock.install()  # before y0 is imported: module-level locks of the code under test become SimLocks
+
+import networkx  # noqa: E402
+import y0  # noqa: E402
 
 Y0_DIR = os.path.dirname(os.path.abspath(y0.__file__)) + os.sep
 NX_CLASSES_DIR = os.path.join(os.path.dirname(os.path.abspath(networkx.__file__)), "classes") + os.sep
@@ -54,7 +58,7 @@ class HarnessError(Exception):
 
 
 class _CallerState:
-    __slots__ = ("name", "op", "line", "since_resume", "resumed", "prev_hot")
+    __slots__ = ("name", "op", "line", "since_resume", "resumed", "prev_hot", "pending_abort")
 
     def __init__(self, name: str) -> None:
         self.name = name
@@ -63,6 +67,7 @@ class _CallerState:
         self.since_resume = 0
         self.resumed = False
         self.prev_hot = False
+        self.pending_abort: str | None = None
 
 
 # Lines that write state other callers may see: attribute / global stores (a memo field on a graph, a
@@ -85,6 +90,30 @@ def hot_lines(code: Any) -> frozenset:
         hl = frozenset(lines)
         _hot_cache[code] = hl
     return hl
+
+
+# CPython re-emits a 'line' event for the line of a `with` statement when the block is left, *after* the
+# protected region has ended and *before* __exit__ is called.  The interpreter itself never delivers an
+# asynchronous exception there (bpo-29988: the eval breaker is not checked between the end of the body and the
+# call of __exit__), so an abort injected at that event would be a fault no deployment can meet -- it would
+# leak every lock taken with `with lock:`.  Aborts that fall on such an event are postponed to the next one.
+_with_cache: dict[Any, dict] = {}
+
+
+def at_with_exit(frame: Any) -> bool:
+    code = frame.f_code
+    d = _with_cache.get(code)
+    if d is None:
+        d = {}
+        cur = None
+        for ins in dis.get_instructions(code):
+            if ins.starts_line is not None:
+                cur = ins.starts_line
+            if ins.opname in ("BEFORE_WITH", "BEFORE_ASYNC_WITH") and cur is not None:
+                d.setdefault(cur, ins.offset)
+        _with_cache[code] = d
+    off = d.get(frame.f_lineno)
+    return off is not None and frame.f_lasti > off
 
 
 class Sched:
@@ -117,7 +146,8 @@ class Sched:
         self.audit = audit
         self.audit_p = audit_p
         self.step_budget = step_budget
-        self.cv = threading.Condition()
+        self.cv = threading.Condition(simlock.REAL_RLOCK())
+        self.blocked_yields = 0
         self.current: str | None = None
         self.live: list[str] = []
         self.states: dict[str, _CallerState] = {}
@@ -179,8 +209,27 @@ class Sched:
         if self.harness_error is not None:
             raise HarnessError(f"caller body raised: {self.harness_error!r}") from self.harness_error
 
+    def block_yield(self, owner: str | None, spins: int) -> None:
+        """The running caller is blocked on a lock of the code under test: let the holder (else anybody) run."""
+        st: _CallerState = self.tl.state
+        me = st.name
+        others = [n for n in self.live if n != me]
+        if not others:
+            raise simlock.SimDeadlock("blocked on a lock that no live caller can release")
+        if spins > 50_000:
+            raise StepBudgetExceeded
+        to = owner if owner in others else others[spins % len(others)]
+        self.blocked_yields += 1
+        with self.cv:
+            self.current = to
+            self.cv.notify_all()
+            while self.current != me:
+                self.cv.wait()
+
     def _body(self, name: str, body: Callable[["Sched", str], None]) -> None:
         self.tl.state = self.states[name]
+        simlock.CURRENT.sched = self
+        simlock.CURRENT.name = name
         with self.cv:
             while self.current != name:
                 self.cv.wait()
@@ -190,6 +239,8 @@ class Sched:
             sys.settrace(None)
             self.harness_error = e
         finally:
+            simlock.CURRENT.sched = None
+            simlock.CURRENT.name = None
             self._finish(name)
 
     def _finish(self, name: str) -> None:
@@ -228,6 +279,7 @@ class Sched:
         st.op = idx
         st.line = 0
         st.resumed = False
+        st.pending_abort = None
         self._point(None)  # op start is a pre-emption point (line 0)
         # untraced (sweep) operations still get a liveness bound: function calls are counted instead of lines
         sys.settrace(self._gcount if self.notrace else self._gtrace)
@@ -284,18 +336,22 @@ class Sched:
             self.events += 1
             if st.line > self.step_budget:
                 raise StepBudgetExceeded
-            if self.abort_at or self.abort_dyn:
-                kind = self.abort_at.get((st.name, st.op, st.line))
+            if self.abort_at or self.abort_dyn or st.pending_abort:
+                kind = self.abort_at.get((st.name, st.op, st.line)) or st.pending_abort
                 if kind is None and st.resumed and self.abort_dyn:
                     dyn = self.abort_dyn.get((st.name, st.op))
                     if dyn is not None and st.since_resume == dyn[0]:
                         kind = dyn[1]
                         del self.abort_dyn[(st.name, st.op)]
                 if kind is not None:
-                    site = self._site(frame)
-                    self.fired_aborts.append([st.name, st.op, st.line, kind, site])
-                    self.abort_sites[site] = self.abort_sites.get(site, 0) + 1
-                    raise ABORT_TYPES[kind]("injected abort")
+                    if at_with_exit(frame):
+                        st.pending_abort = kind  # not a point where an exception can arrive: next event
+                    else:
+                        st.pending_abort = None
+                        site = self._site(frame)
+                        self.fired_aborts.append([st.name, st.op, st.line, kind, site])
+                        self.abort_sites[site] = self.abort_sites.get(site, 0) + 1
+                        raise ABORT_TYPES[kind]("injected abort")
         me = st.name
         to = None
         if self.mode == "explicit":
